@@ -114,6 +114,13 @@ CHECKS = {
          "the root (absolute, relative, via ..) are opened, checked, iterated and written: nothing outside may be opened or created.",
     note="No symlinks inside the dataset directory; pathlib's parser is modelled (and compared). Native readers' opens are seen through their results (a recognisable example id) and the audit hook.",
     ref="DESIGN.md §5 C17"),
+ "C20": dict(
+    technique="Lean 4 proof (version gate characterised for all triples; dump-without-defaults/load-with-defaults identity for every document; relocation invariance from C17's containment) + differential runs of the gate and of pydantic's exclude_defaults, generated descriptions and relocated datasets",
+    text="C20_gate, C20_same_or_older_loads, C20_defaults_roundtrip, C20_relocation_invariant. Version triples around the running version (incl. multi-digit components) are stamped into real datasets and "
+         "the verdict compared with Ver.loads and with numeric tuple comparison; random ShardsList documents go through model_dump_json(exclude_defaults)/validate and the model's dump/load; descriptions with "
+         "unicode and nested JSON metadata at dataset/attribute/shard level are reopened and compared; copies/moves (nested, unicode, blank, cwd-relative) are opened, checked, iterated and written to.",
+    note="pydantic-core's JSON text layer and semver's parser are externals (partial: exercised, not proved).",
+    ref="DESIGN.md §5 C20"),
 }
 
 def main():
